@@ -3,5 +3,6 @@ CONSTANTS
  NK = 4
  BF = 2
  MaxLayer = 2
+ OnlyTall = FALSE
 INVARIANTS StepOK Emit
 CHECK_DEADLOCK FALSE
